@@ -20,6 +20,13 @@
 (*   kind "scalar": the value is the first component                       *)
 (* The PROPERTY is stated over "xhist", the values the variable took at    *)
 (* every physical step, which the mechanism never reads.                   *)
+(*                                                                         *)
+(* Cross correlation (p.cross, corrFuncWithColvar): a second variable y    *)
+(* whose value is the first one's with its components rotated (the harness *)
+(* places a second atom there).  Textbook: C(k) = < x(t) . y(t - k S) >.   *)
+(* The code (named deviation "cross-correlation-of-other-variable-only")   *)
+(* stores and correlates the OTHER variable's values only, with this       *)
+(* variable's own square at lag 0; the mechanism below follows the code.   *)
 (***************************************************************************)
 EXTENDS Integers, Sequences, FiniteSets, TLC
 
@@ -46,6 +53,8 @@ Norm(v) == LET n2 == Dot(v, v) IN
 Cos36(a, b) == Dot(a, b) * (36 \div (Norm(a) * Norm(b)))
 \* the variable's value as seen by the correlation function ("scalar": first component)
 Val(v) == IF Kind = "scalar" THEN <<v[1], 0, 0>> ELSE v
+Cross == p.cross
+Other(v) == <<v[2], v[3], v[1]>>          \* value of the second variable when the first one is v
 
 \* scaled contribution of the pair (now, earlier); Self = lag 0
 \*   coor, vec/scalar : dot product                       (scale 1)
@@ -64,11 +73,13 @@ Take(s, n) == SubSeq(s, 1, IF Len(s) < n THEN Len(s) ELSE n)
 Calc(xraw, newRel) ==
   LET x == Val(xraw)
       v == IF newRel = 0 THEN Zero3 ELSE Sub3(x, xOld)
-      item == IF CT = "vel" THEN v ELSE x
+      y == IF Cross THEN Other(x) ELSE x        \* cfcv->value(): the variable named by corrFuncWithColvar
+      item == IF CT = "vel" THEN v ELSE y
       acfDo == acfInit /\ (newRel > prevRel)
       lst == acfLists[acfPtr]
       full == Len(lst) >= LC
-      sum1 == [k \in 1..(LC + 1) |-> acfSum[k] + (IF k = 1 THEN Self(item) ELSE Pair(item, lst[k - 1]))]
+      \* lag 0: "x.norm2()" is THIS variable's own value (coordinate type), the item's for the others
+      sum1 == [k \in 1..(LC + 1) |-> acfSum[k] + (IF k = 1 THEN Self(IF CT = "coor" THEN x ELSE item) ELSE Pair(item, lst[k - 1]))]
   IN /\ vel' = v /\ xOld' = x
      /\ acfInit' = TRUE
      /\ acfSum' = IF acfDo /\ full THEN sum1 ELSE acfSum
@@ -100,6 +111,7 @@ Spec == Init /\ [][Next]_cvars
 (* C(k) = average over frames of Pair(item(j), item(j - k SC)).            *)
 (***************************************************************************)
 ItemAt(j) == IF CT = "vel" THEN Sub3(xhist[j + 1], xhist[j]) ELSE xhist[j + 1]     \* xhist[1] is step 0
+OtherAt(j) == IF Cross THEN Other(ItemAt(j)) ELSE ItemAt(j)
 NItems == Len(xhist) - 1
 Frames == {j \in 1..NItems : (j - 1) \div SC >= LC}
 RECURSIVE SumFrames(_, _)
@@ -107,6 +119,17 @@ SumFrames(T, k) == IF T = {} THEN 0
                    ELSE LET j == CHOOSE jj \in T : TRUE
                         IN (IF k = 0 THEN Self(ItemAt(j)) ELSE Pair(ItemAt(j), ItemAt(j - k * SC))) + SumFrames(T \ {j}, k)
 \* each physical step after the first is processed exactly once, however the run is segmented
-ItemsOK == started => (Len(asamp) = NItems /\ \A j \in 1..NItems : asamp[j] = ItemAt(j))
-AcfOK == started => (acfN = Cardinality(Frames) /\ \A k \in 0..LC : acfSum[k + 1] = SumFrames(Frames, k))
+ItemsOK == started => (Len(asamp) = NItems /\ \A j \in 1..NItems : asamp[j] = OtherAt(j))
+AcfOK == (started /\ ~Cross) => (acfN = Cardinality(Frames) /\ \A k \in 0..LC : acfSum[k + 1] = SumFrames(Frames, k))
+\* textbook cross correlation: this variable now, the other one k strides earlier (k = 0: both now)
+RECURSIVE SumCross(_, _)
+SumCross(T, k) == IF T = {} THEN 0
+                  ELSE LET j == CHOOSE jj \in T : TRUE IN Pair(ItemAt(j), OtherAt(j - k * SC)) + SumCross(T \ {j}, k)
+CrossTextbook == \A k \in 0..LC : acfSum[k + 1] = SumCross(Frames, k)
+\* what the code computes instead (scope of the named deviation): the other variable's autocorrelation, own square at lag 0
+RECURSIVE SumOther(_, _)
+SumOther(T, k) == IF T = {} THEN 0
+                  ELSE LET j == CHOOSE jj \in T : TRUE
+                       IN (IF k = 0 THEN Self(IF CT = "coor" THEN ItemAt(j) ELSE OtherAt(j)) ELSE Pair(OtherAt(j), OtherAt(j - k * SC))) + SumOther(T \ {j}, k)
+CrossScope == (started /\ Cross) => (acfN = Cardinality(Frames) /\ \A k \in 0..LC : acfSum[k + 1] = SumOther(Frames, k))
 =============================================================================
